@@ -51,6 +51,47 @@ W = {
 "C20-1": ("cronJobHandler.go shouldUpdateAlertStateToFiring reads exactly N-1 history rows: 'Config Modified' rows use up slots", "N>=2, an edit between evaluations of the same window, the dropped evaluation having been false"),
 "C20-2": ("notificationHandler.go 'last notified state equals current state: don't send' applied to every state", "alert Firing longer than the cool-down, or re-entering Firing after a held-back Normal"),
 "C20-3": ("virtualtable.go RemoveAliases deletes the alias for every index that shares it (in memory only)", "an alias attached to >=2 indices of the same tenant and removed from one"),
+
+"C01-4": ("logpacker.go unescapes escaped JSON strings into one per-event scratch buffer; the free offset is set with = instead of +=: values get pieces of other columns spliced in", "one event with >=3 string values containing a backslash escape"),
+"C01-5": ("searcher.go getFilteredBlocks marks a block processed before shouldProcessBlock: blocks before the cut-off are never searched later", ">=2 segments with partially overlapping time ranges (out-of-order timestamps around a rotation)"),
+"C02-4": ("dtypeutils CompareValues truncates the float operand in int64 <op> float64: `where n<5.5` loses n=5", "integer field, non-integral decimal literal, ordering operator, value equal to trunc(literal), in the where stage"),
+"C02-5": ("filtersearch.go negated match bookkeeping no longer clears bits set by the dictionary pre-pass: NOT hello returns X and NOT X", "negated free-text term whose word sits in a dictionary-encoded column"),
+"C03-4": ("segwriter.go doLogEventFilling drops cstartidx reset when backfilling absent columns: the ingest-time persistent-query search sees the previous event's value", "PQS on and query persistent at segment creation; event lacking column X after one whose X matches; predicate free text / number / wildcard / !="),
+"C03-5": ("blockmeta.go bloom probing only with the term as typed: rotated blocks dropped for case variants", "case-insensitive col=value or free text typed in a case that is neither the stored spelling nor lower case; rotated segment"),
+"C04-4": ("segstats.go AddSegStatsStr uses FastParseFloat: '-', '+', '.' count as number 0, decimals 1 ulp off", "string-typed field aggregated at query time holding sign/dot-only placeholders or certain decimals"),
+"C04-5": ("segconsts.go GetValueAsString forgets SS_DT_BACKFILL: a null group key makes the whole stats-by query fail", "a matched event lacking a grouping field"),
+"C05-4": ("sortcommand.go canSkipBatch compares only the first sort key when the sort already holds limit rows", "multi-key sort, several batches, ties on the first key straddling the limit"),
+"C05-5": ("searcher.go fetchRRCs skips the clamp of the release time to the cut-off when all loaded blocks are returned", "three overlapping segments with out-of-order arrival; newest-first order / head n"),
+"C06-4": ("evalcommand.go reuses its result column buffer between batches (earlier batch rows get later values)", ">=2 batches, later batch not larger than the buffer, a consumer still holding the earlier batch (final collector, tail)"),
+"C06-5": ("dedupcommand.go consecutive=true keeps run state across Rewind", "dedup consecutive=true followed by a two-pass command; first key equals last key"),
+"C07-4": ("segmetarw.go readSfmForSegMetas goroutine closes over the loop variable (go 1.21): after restart all rotated segments but the last lose their column names", ">=2 rotated segments, restart, content of returned events checked"),
+"C07-5": ("suffix.go hands the previous segment number out again when its directory has no .sfm: a crashed first flush's files are appended to", "crash inside the first flush of a segment, restart + ingest + flush, second restart"),
+"C08-5": ("decompressor.go reads the XOR window header in one call and drops 'length 0 means 64'", "two successive values whose XOR spans all 64 bits (+0 -> -5e-324, MaxFloat64 -> -0)"),
+"C08-6": ("metricssegment.go updateTimeRange if/else-if: lowTS of a fresh segment never set for forward-only ingestion", "strictly increasing timestamps from the segment's first datapoint; query window ending before the newest datapoint"),
+"C09-4": ("metricsquery.go mergeMetricSearchRequests uses maps.Copy: rotated segments' requests overwritten by the open segment's when they share a tags-tree directory", "segment rotated by size without tags-tree rotation, then more samples in the open segment"),
+"C09-5": ("promql parser runs 'literal' =~ / !~ matchers as = / != but forgets ^ $ \\ {n}", "regex matcher whose only syntax is an anchor, escape class or counted repetition"),
+"C10-4": ("wal.go decodeWALBlock does not shrink readDps: the tail of a larger block is replayed again after a smaller one", "a smaller block after a larger one in the same WAL file"),
+"C10-5": ("metricssegment.go timeBasedMetaEntryWalFlush skips segments whose CURRENT block is empty: meta entry dropped after a block rotation", "block rotated without segment rotation, meta-entry timer ticks while idle, crash before the next datapoint"),
+"C11-4": ("segwriter.go createSegStore drops the re-check under the lock: racing first ingests create two stores, one is orphaned", ">=2 truly parallel first ingests for a new stream on >=2 CPUs"),
+"C11-5": ("segstore.go removes the segment from the unrotated info right after addSegmeta, before AddSegMetaToMetadata: in neither list for a window", "a search inside that window of a rotation"),
+"C12-4": ("otlp/traces.go trims leading zero bytes of every parent span id", "a non-root span whose parent's span id starts with a 0x00 byte"),
+"C12-5": ("buildspantree.go climbs to the top-most ancestor of a rootless trace without a cycle guard (hang)", "a trace with no root and a parent cycle reachable from its earliest span"),
+"C13-4": ("virtualtable.go RemoveAliases updates the in-memory alias map after the early return for 'no aliases left'", "an index loses its last alias, then a query through that alias in the same process"),
+"C13-5": ("segwriter.go DeleteVirtualTableSegStoreOfOrg removes suffix/<index>/ (shared by all orgs): the other org's segment counter restarts", "two orgs with an index of the same name, survivor has a rotated segment, other deletes, survivor rotates again"),
+"C14-4": ("segmetarw.go removeSegmetasOfOrg reuses one struct for json.Unmarshal: omitted fields (orgid 0) keep the previous line's values", "multi-tenant segmeta.json with a non-zero-org line before a surviving org-0 line; a pass that rewrites the file"),
+"C14-5": ("retention.go shared sort helper compares metrics seconds with log milliseconds", "volume/inode pass over a store with both log and metrics segments"),
+"C15-4": ("esBulkHandler.go itemPosOfIndex records the slot in the event list instead of the response", "store-level failure for one index plus an earlier item that produced no event"),
+"C15-5": ("segwriter.go AddEntry skips events with no column but still acknowledges them", "a valid document with no leaf column ({} / timestamp-only / empty containers)"),
+"C16-4": ("metricssegment.go extractTagsFromJson unescapes into one scratch array: escaped tag values of one datapoint alias", "one datapoint with >=2 attribute values carrying a JSON escape"),
+"C16-5": ("splunk.go getPLE reads HEC time only as json.Number: a quoted time string is ignored", "HEC event whose time is a quoted string"),
+"C17-5": ("querystatus.go puller admits a batch of waiting queries; admittingQuery holds only the last: cancel of earlier batch members is lost", ">=2 waiting queries and >=2 free slots, cancel of a batch member other than the last in the window"),
+"C17-6": ("evaluationstructs.go handleMVIndex drops the startIndex<0 check: slice bounds panic in the query goroutine", "mvindex with negative start and in-range end over a record with fewer values"),
+"C18-4": ("segreader.go loadBlockUsingBuffer returns (false, err) on a checksum failure: treated as 'column absent', previous block's values served", "checksum failure in a column block after the reader loaded another block"),
+"C18-5": ("seriesreader.go GetTimeSeriesIterator recovers the panic into a local variable: damaged series silently skipped", ".tso offset / .tsg length pointing past the buffer"),
+"C19-4": ("scroll.go looks an unknown scroll id up on disk without checking it (read / delete of a .csv outside the data dir)", "ES scroll request with an unknown id containing ../ segments"),
+"C19-5": ("lookups.go percent-decodes the name after validating the raw segment (get / delete)", "percent-encoded separators in the lookup file name"),
+"C20-4": ("cronJobHandler.go returns before recording the evaluation when the notification fails", "delivery failure exactly at an evaluation that enters Firing or returns to Normal"),
+"C20-5": ("lookups.go UploadLookupFile drops O_TRUNC: overwrite with shorter content keeps the stale tail", "overwrite=true with content shorter than what is stored"),
 }
 for sid, (what, needs) in sorted(W.items()):
     p = "/verif/seeded/%s/meta.json" % sid
